@@ -180,8 +180,8 @@ def _judge_one(args):
     module, cfg, shard, metadir, timeout = args
     rc, out = run_tlc(module + ".tla", cfg, metadir, env={"TRACE": shard}, workers=1, heap="3g", timeout=timeout)
     rejects = []
-    for m in re.finditer(r'<<"REJECT", (\d+), "([^"]*)"(?:, "([^"]*)")?>>', out):
-        rejects.append((int(m.group(1)), m.group(2), m.group(3) or ""))
+    for m in re.finditer(r'<<\s*"REJECT",\s*(\d+),\s*"([^"]*)"(?:,\s*"([^"]*)")?(?:,\s*"([^"]*)")?\s*>>', out):
+        rejects.append((int(m.group(1)), m.group(2), m.group(3) or "", m.group(4) or ""))
     consumed = "Postcondition" not in out and ("No error has been found" in out)
     gen, dist = parse_states(out)
     return shard, sorted(set(rejects)), consumed, dist, out
@@ -201,8 +201,8 @@ def judge(ctx, module, cfg, shards, timeout=1500):
             states += dist
             if rej:
                 lines = open(shard).read().splitlines()
-                for (ln, case, cfgname) in rej:
-                    rejects.append({"shard": shard, "line": ln, "case": case, "cfg": cfgname, "event": json.loads(lines[ln - 1])})
+                for (ln, case, cfgname, tag) in rej:
+                    rejects.append({"shard": shard, "line": ln, "case": case, "cfg": cfgname, "tag": tag, "event": json.loads(lines[ln - 1])})
     return rejects, states
 
 
@@ -377,7 +377,7 @@ def _sig_match(sig, flat):
 def flat_event(rej):
     """Flatten a rejected event into the discrete parameters that signatures may mention."""
     ev = rej["event"]
-    flat = {"e": ev.get("e"), "case": rej.get("case"), "cfg": rej.get("cfg", "")}
+    flat = {"e": ev.get("e"), "case": rej.get("case"), "cfg": rej.get("cfg", ""), "tag": rej.get("tag", "")}
     flat["isa"] = flat["cfg"].split("-")[0] if flat["cfg"] else ""
     for k, v in ev.get("in", {}).items():
         if isinstance(v, (int, str)):
@@ -418,6 +418,8 @@ def write_replay(ctx, rej):
 
 
 def write_evidence(ctx, level, coverage, assumptions, violations, extra=None):
+    if os.environ.get("VERIF_NO_EVIDENCE") or os.environ.get("VERIF_CORRUPT"):
+        return      # self-tests (seeded changes, corrupted traces) must not overwrite the evidence of the real tree
     os.makedirs(os.path.join(ROOT, "evidence"), exist_ok=True)
     ev = {"property_id": ctx.prop, "tier": ctx.tier, "seed": ctx.seed, "level": level, "coverage": coverage,
           "assumptions": assumptions, "wall_s": round(time.time() - ctx.t0, 1), "violations": violations}
